@@ -63,6 +63,9 @@ func stdCLI(mode string) *simdev.CLI {
 				c.Mode = "privilege-exec"
 
 				return ""
+			case strings.HasPrefix(line, "show ") && c.Mode == "configuration":
+				// like the real thing: no show commands in configuration mode
+				return "% Invalid input detected at '^' marker."
 			case line == "show v7":
 				return "Version 9\r\nuptime 5"
 			case line == "show z8":
@@ -245,7 +248,8 @@ func buildLogin(kind string) func(c sessCfg) (*sess, error) {
 }
 
 func ncReplyOK(s *simdev.NCServer, r simdev.NCRequest) []byte {
-	pay := fmt.Sprintf(`<rpc-reply xmlns="urn:ietf:params:xml:ns:netconf:base:1.0" message-id="%d"><data><v>%d</v></data></rpc-reply>`, r.MsgID, r.MsgID)
+	// <c>: which connection of this server the request came in on (a reply of an earlier session can be told from one of this session)
+	pay := fmt.Sprintf(`<rpc-reply xmlns="urn:ietf:params:xml:ns:netconf:base:1.0" message-id="%d"><data><v>%d</v><c>%d</c></data></rpc-reply>`, r.MsgID, r.MsgID, s.Hellos())
 	if s.Version == "1.1" {
 		return simdev.Frame11([]byte(pay), []int{40, 7})
 	}
@@ -308,6 +312,14 @@ func ncNextGet(s *sess) (string, error) {
 
 	if m == nil || in == nil || m[1] != in[1] {
 		return "", fmt.Errorf("reply does not belong to the request: input %q result %q", r.Input, r.Result)
+	}
+
+	s.pipe.Lock()
+	conn := s.srv.Hellos()
+	s.pipe.Unlock()
+
+	if !strings.Contains(r.Result, fmt.Sprintf("<c>%d</c>", conn)) {
+		return "", fmt.Errorf("the reply was not produced in this session (connection %d of the server): result %q", conn, r.Result)
 	}
 
 	return "own-reply", nil
@@ -395,11 +407,11 @@ func faultOps() []*faultOp {
 				}
 
 				return r.Result, nil
-			}},
+			}, next: showW5, nextWant: "omega"},
 		{name: "n.acquirepriv", build: buildNetwork("exec"),
 			run: func(s *sess, _ []util.Option, _ time.Duration) (string, error) {
 				return "", s.nd.AcquirePriv("configuration")
-			}},
+			}, next: showW5, nextWant: "omega"},
 		{name: "n.sendconfigs", perOp: true, perOpFrom: 2, build: buildNetwork("privilege-exec"),
 			prep: func(s *sess) error { return s.nd.AcquirePriv("privilege-exec") },
 			run: func(s *sess, o []util.Option, _ time.Duration) (string, error) {
@@ -409,7 +421,7 @@ func faultOps() []*faultOp {
 				}
 
 				return r.JoinedResult(), nil
-			}},
+			}, next: showW5, nextWant: "omega"},
 		{name: "n.open.onopen", openIsOp: true, build: buildNetworkOnOpen,
 			// Open of a network driver whose on-open hook escalates (what every platform definition does): a loss during the hook
 			// must make Open fail
